@@ -158,11 +158,14 @@ def fact_text(name, key, val, is_func):
     return "(%s %s)" % (name, ks)
 
 
-def render_program(atoms, no_decomp, profile, phases, seed=0, extra_rule_opts="", rule_text=None):
-    """phases: one entry per `(run main 1)`:  {"pre": [commands issued at top level before the run],
-                                               "aux": [actions performed BY A RULE during this run]}.
-    Rows written by `aux` get the timestamp of that iteration, which is exactly the next run's last_run_at:
-    the boundary case semi-naive evaluation must not lose.  -> program text"""
+def render_program(atoms, no_decomp, profile, steps, seed=0, rules=None):
+    """steps: one entry per `(run <ruleset> 1)`:
+         {"ruleset": name, "pre": [commands issued at top level before the run],
+          "aux": [actions performed BY A RULE of that ruleset during this run]}
+    Rows written by `aux` get the timestamp of that iteration, which is exactly the next run's last_run_at
+    for the rules of that ruleset: the boundary case semi-naive evaluation must not lose.
+    rules: {ruleset: (out relation, rule options)}; default {"main": ("Out", "")}.  -> program text"""
+    rules = rules or {"main": ("Out", "")}
     sig = signature(atoms)
     vs = body_vars(atoms)
     lines = []
@@ -171,10 +174,12 @@ def render_program(atoms, no_decomp, profile, phases, seed=0, extra_rule_opts=""
             lines.append("(function %s (%s) i64 :merge (min old new))" % (name, " ".join(["i64"] * ar)))
         else:
             lines.append("(relation %s (%s))" % (name, " ".join(["i64"] * ar)))
-    lines.append("(relation Out (%s))" % " ".join(["i64"] * len(vs)))
+    for rs, (outrel, _) in sorted(rules.items()):
+        lines.append("(relation %s (%s))" % (outrel, " ".join(["i64"] * len(vs))))
     lines.append("(relation Trig (i64))")
     lines.append("(ruleset seed)")
-    lines.append("(ruleset main)")
+    for rs in sorted(rules):
+        lines.append("(ruleset %s)" % rs)
     pname, default, over = profile
     seeds = []
     for name, ar in sorted(sig.items()):
@@ -185,16 +190,18 @@ def render_program(atoms, no_decomp, profile, phases, seed=0, extra_rule_opts=""
         lines.append("(rule () (%s) :ruleset seed)" % " ".join(seeds))
         lines.append("(run seed 1)")
     body = " ".join(a.render() for a in atoms)
-    opts = ":ruleset main" + (" :no-decomp" if no_decomp else "") + extra_rule_opts
-    lines.append(rule_text or "(rule (%s) ((Out %s)) %s)" % (body, " ".join(vs), opts))
-    for k, ph in enumerate(phases):
-        if ph.get("aux"):
-            lines.append("(rule ((Trig %d)) (%s) :ruleset main)" % (k, " ".join(ph["aux"])))
-    for k, ph in enumerate(phases):
-        for cmd in ph.get("pre", []):
+    for rs, (outrel, ropts) in sorted(rules.items()):
+        opts = ":ruleset %s" % rs + (" :no-decomp" if no_decomp else "") + ropts
+        lines.append("(rule (%s) ((%s %s)) %s)" % (body, outrel, " ".join(vs), opts))
+    for k, st in enumerate(steps):
+        if st.get("aux"):
+            lines.append("(rule ((Trig %d)) (%s) :ruleset %s)" % (k, " ".join(st["aux"]), st["ruleset"]))
+    for k, st in enumerate(steps):
+        for cmd in st.get("pre", []):
             lines.append(cmd)
-        if ph.get("aux"):
+        if st.get("aux"):
             lines.append("(Trig %d)" % k)
-        lines.append("(run main 1)")
-    lines.append("(print-function Out 1000000)")
+        lines.append("(run %s 1)" % st["ruleset"])
+    for rs, (outrel, _) in sorted(rules.items()):
+        lines.append("(print-function %s 1000000)" % outrel)
     return "\n".join(lines) + "\n"
